@@ -31,7 +31,8 @@ def check(ctx):
              "end_link; the trait start_link/end_link of SubRenderer have no other caller")
     ctx.rule("C08-E", "finalise and fmt_links are called exactly once, from render_tree_to_string, after "
              "the rendering walk; with the option off the decorator gets an empty list")
-    ctx.rule("C08-F", "default TextDecorator::finalise labels entry i as i+1 and prints the url itself")
+    ctx.rule("C08-F", "default TextDecorator::finalise labels entry i as i+1 and prints the url itself; the entry's format "
+             "template, decoded from the constant given to fmt::Arguments::new, is '[' k ']: ' url with default formatting")
     ctx.rule("C08-G", "a link whose children are all shallow-empty builds no Link node")
     ctx.rule("C08-H", "a Link node's target and children are taken apart only by the Link arm of the render walk (which numbers it) "
              "and by the estimate / emptiness / debug functions: no other code renders a link's content past the numbering")
@@ -145,6 +146,12 @@ def rule_c(ctx):
             a[0] == "field" and a[2] == "links" for a in at)
         ctx.check(dep, "C08-C", "ref-text-from-links.len", s, b.id,
                   "reference text must be formatted from links.len()")
+        from .. import strfmt
+        sh = strfmt.shape(b, t["args"][1])
+        okc = len(sh) == 3 and sh[0] == ("lit", "[") and sh[2] == ("lit", "]") and sh[1][0] == "val" and sh[1][2] and \
+            "len(" in sh[1][1] and "links" in sh[1][1] and "+" not in sh[1][1] and "-" not in sh[1][1]
+        ctx.check(okc, "C08-C", "ref-text=[links.len()]", s, b.id,
+                  "the reference must read '[' links.len() ']' with default formatting; decoded shape: %s" % (sh,))
         ctx.check(dominated_by_true_edge(b, bb, "RenderOptions", "include_link_footnotes", True),
                   "C08-C", "ref-under-option", s, b.id,
                   "reference emission must be reachable only through the true edge of include_link_footnotes")
@@ -303,6 +310,14 @@ def rule_f(ctx):
             saw_url = True
     ctx.check(saw_idx, "C08-F", "label=index+1", t["span"], cb.id, "footnote label must be enumerate index + 1")
     ctx.check(saw_url, "C08-F", "text=url", t["span"], cb.id, "footnote text must be the url itself")
+    # the entry's text, decoded from the format template(s): "[" label "]: " url, label and url printed plainly
+    from .. import strfmt
+    sh = strfmt.shape(cb, t["args"][0])
+    okc = len(sh) == 4 and sh[0] == ("lit", "[") and sh[2] == ("lit", "]: ") and \
+        sh[1][0] == "val" and sh[1][2] and "+ 1_usize" in sh[1][1] and sh[3][0] == "val" and sh[3][2] and "+" not in sh[3][1]
+    ctx.check(okc, "C08-F", "entry-text=[label]: url", t["span"], cb.id,
+              "the footnote entry must read '[' k ']: ' target with k and the target printed as they are (no padding, "
+              "width or other format options); decoded shape: %s" % (sh,))
     en = fin.calls(lambda cd, t: ends(cd, "Iterator::enumerate"))
     rev = fin.calls(lambda cd, t: callee_method(t) in ("rev", "skip", "step_by", "filter", "take"))
     ctx.check(len(en) == 1 and not rev, "C08-F", "enumerate-in-order", fin.span, fin.id,
